@@ -293,7 +293,15 @@ pub fn gen_c18(rng: &mut Rng) -> Value {
         };
         let mut st = json!({"k":"api","op":op,"to":dest});
         let target_key = if rng.chance(1, 8) || (attached && rng.chance(1, 2)) { 2 } else { 0 }; // key 2: never written, or attached by a raw index record
-        if by_key {
+        if rng.chance(1, 7) && !dest.contains("/sl") {
+            // the OTHER entry, possibly onto a file an extraction of the first one has made (not through the caller's
+            // symlink into the cache: what lands there would be the caller's doing)
+            if by_key {
+                st["key"] = json!(1);
+            } else {
+                st["addr"] = c1.clone();
+            }
+        } else if by_key {
             st["key"] = json!(target_key);
         } else {
             st["addr"] = c0.clone();
@@ -1132,6 +1140,12 @@ pub fn gen_c12(rng: &mut Rng) -> Value {
                 1 => json!({"k":"env","act":"mkdir","bucket":ki}),
                 _ => json!({"k":"env","act":"write_file","path":*rng.pick(&["$C/index-v5/zz", "$C/stray-file", "$C/content-v2/stray"]),"hex":"00"}),
             },
+            _ if rng.chance(1, 5) => {
+                // valid JSON with a TAB as whitespace between two members, correctly checksummed: the line has three
+                // tab-separated fields and is not a record of the format
+                let text = format!("{{\"key\":{},\t\"integrity\":\"sha256-47DEQpj8HBSa+/TImW+5JCeuQeRkm5NMpJWZG3hSuFU=\",\"time\":7,\"size\":0,\"metadata\":null,\"raw_metadata\":null}}", crate::fmt::json_str(&keys[ki]));
+                json!({"k":"env","act":"append_hashed_text","bucket":ki,"text":text})
+            }
             _ if rng.chance(1, 3) => json!({"k":"env","act":"append_record","bucket":ki,"rec":{"key":keys[ki].clone(),"integrity":*rng.pick(&["md5-1B2M2Y8AsgTpgAmY7PhCfg==", "garbage", "sha256"]),"time":1,"size":0,"metadata":null,"raw_metadata":null}}),
             _ => json!({"k":"env","act":"insert_line","bucket":ki,"boundary":rng.below(4),"hex": if rng.chance(1,2) { "fffec3".to_string() } else { hex::encode(garbage_line(rng)) }}),
         };
